@@ -332,6 +332,11 @@ class ConcurrentTaskSet : public TaskSetBase {
           pool_.schedule(packageTask(std::forward<F>(f)), ForceQueuingTag());
           return;
         }
+        if (DISPENSO_EXPECT(canceled(), false)) {
+          DISPENSO_VERIF_HOOK("ts.guard", this, 1, 2);
+          return;
+        }
+        DISPENSO_VERIF_HOOK("ts.guard", this, 0, 2);
         detail::InlineDepthGuard depthGuard;
         DISPENSO_VERIF_HOOK("ts.inline", this, 1, 0);
         f();
@@ -475,6 +480,11 @@ class ConcurrentTaskSet : public TaskSetBase {
           pool_.schedulePlaced(packageTask(std::forward<F>(f)), ForceQueuingTag());
           return;
         }
+        if (DISPENSO_EXPECT(canceled(), false)) {
+          DISPENSO_VERIF_HOOK("ts.guard", this, 1, 2);
+          return;
+        }
+        DISPENSO_VERIF_HOOK("ts.guard", this, 0, 2);
         detail::InlineDepthGuard depthGuard;
         DISPENSO_VERIF_HOOK("ts.inline", this, 1, 0);
         f();
